@@ -851,6 +851,16 @@ C20_EntryFate == [][~ Faults => \A n \in DOMAIN refs : (Kind(n) = "qw" /\ n \not
 JobStatusNow == IF Atomic THEN (IF last'[1] = "job" THEN last'[4] ELSE "") ELSE (IF job.on /\ job'.on /\ job'.tp = job.tp THEN job.status ELSE "")
 JobArgNow == IF Atomic THEN last'[3] ELSE job.arg
 JobPrNow == IF JobKindNow = "EvalChild" THEN JobArgNow[1] ELSE JobArgNow
+\* the gates (C04, C06) at design level: a pull request enters the queue, or is merged directly, only when it is
+\* approved and every one of its integration tips (source + w/) has a SUCCESSFUL build, or the build is bypassed
+QueuedNow(p) == \E b \in Branches : QWN(p, b) \in DOMAIN refs' /\ QWN(p, b) \notin DOMAIN refs
+DirectNow(p) == /\ JobKindNow \in {"EvalPR", "EvalChild", "EvalCommit"} /\ JobStatusNow = "SuccessMessage"
+                /\ SrcN(p) \in DOMAIN refs /\ BN(pr[p].dst) \in DOMAIN refs /\ BN(pr[p].dst) \in DOMAIN refs'
+                /\ ~ Leq(G, refs[SrcN(p)], refs[BN(pr[p].dst)]) /\ Leq(G', refs[SrcN(p)], refs'[BN(pr[p].dst)])
+TipsGreen(p) == \A n \in DOMAIN refs : (Kind(n) \in {"src", "w"} /\ n[2] = p /\ (Kind(n) = "w" => IsLive(BranchOf(n)))) =>
+                   Status(refs[n]) = "SUCCESSFUL"
+C06_Gate == [][~ Faults => \A p \in 1..NP : (QueuedNow(p) \/ DirectNow(p)) => (pr[p].byp \/ TipsGreen(p))]_vars
+C04_Gate == [][~ Faults => \A p \in 1..NP : (QueuedNow(p) \/ DirectNow(p)) => pr[p].appr]_vars
 \* a commit a user made on an integration branch is never dropped by the robot, except on a declined pull
 \* request, on an explicit force_reset, by the queue reset jobs, or when the pull request is merged from the queue (a commit
 \* made on an integration branch AFTER the pull request entered the queue is not part of what is merged and
